@@ -841,6 +841,14 @@ def _rename_loops(fn_node: ast.AST):
             cr = _comp_rename(ap[1])
             if cr is not None:
                 out.append((ap[0][0].id, cr[2], cr[3], st))
+    # the comprehension handed straight to the block API: b.replace_jump_targets(jump_targets=tuple(NEW if ..))
+    for c in A.walk_no_nested(fn_node):
+        if isinstance(c, ast.Call) and isinstance(c.func, ast.Attribute) and c.func.attr in ("replace_jump_targets", "replace_backedges"):
+            arg = kw(c, "jump_targets", 0) or kw(c, "backedges", 0)
+            cr = _comp_rename(arg) if arg is not None else None
+            if cr is not None:
+                st_ = A.enclosing_stmt(c) or c
+                out.append((f"<{c.func.attr} argument>", cr[2], cr[3], st_))
     for lp in A.walk_no_nested(fn_node):
         if not (isinstance(lp, ast.For) and isinstance(lp.iter, ast.Call) and isinstance(lp.iter.func, ast.Name) and lp.iter.func.id == "enumerate" and lp.iter.args and isinstance(lp.iter.args[0], ast.Name)):
             continue
@@ -876,8 +884,20 @@ def store7(ctx) -> List[Ob]:
         origin = {}
         for L, old, new, lp in loops:
             if not isinstance(lp, ast.For):
-                cr = _comp_rename(_assign_parts(lp)[1])
-                origin[id(lp)] = (A.unparse(cr[0]), cr[1])
+                cr = None
+                if L.startswith("<"):
+                    meth_ = L[1:].split(" ")[0]
+                    for c_ in A.walk_no_nested(lp):
+                        if isinstance(c_, ast.Call) and isinstance(c_.func, ast.Attribute) and c_.func.attr == meth_:
+                            a_ = kw(c_, "jump_targets", 0) or kw(c_, "backedges", 0)
+                            cr = _comp_rename(a_) if a_ is not None else None
+                            if cr is not None:
+                                break
+                else:
+                    ap_ = _assign_parts(lp)
+                    cr = _comp_rename(ap_[1]) if ap_ is not None else None
+                if cr is not None:
+                    origin[id(lp)] = (A.unparse(cr[0]), cr[1])
                 continue
             for d in cfg.reaching_defs(lp.iter, L):
                 if d.stmt is not None and isinstance(d.stmt, ast.Assign):
